@@ -1,5 +1,11 @@
 //! Monitors.
 pub mod corpus;
 pub mod dump;
+pub mod entries;
+pub mod ep_cfi;
+pub mod ep_conv;
+pub mod ep_expr;
+pub mod ep_info;
+pub mod ep_misc;
 pub mod fault;
 pub mod step;
